@@ -5,9 +5,13 @@
     - OpenStreamSync: [OpSyncCall] (returns at once or enqueues a waiter and parks),
       [OpSyncWake w] (waiter w receives from its wait channel and runs the code after the
       select), [OpSyncCancel w] (waiter w takes the ctx.Done branch).
-    - AcceptStream: one execution of the loop body under the mutex ([in_accept]); [RParked]
-      means "entry not there, goroutine goes (back) to the select".  Wake-ups of acceptors
-      are therefore environment choices; every safety theorem holds for all of them.
+    - AcceptStream: [IAccept a] is one execution of the loop body under the mutex by caller [a]:
+      look up nextStreamToAccept AND advance it in ONE atomic step (the code holds the write
+      lock across both); [RParked] means "entry not there, caller a goes (back) to the select".
+      Any number of callers may be parked at the same time ([i_parked], explicit caller ids like
+      the open queue); their wake-ups are environment choices ([IAccept a] again, spurious ones
+      included), [IAcceptCancel a] is the ctx.Done branch.  Every safety theorem holds for all
+      interleavings of any number of concurrent callers.
     Why one step per wake-up is enough: between "receive from the wait channel" (or from
     ctx.Done) and the mutex.Lock that follows, other critical sections may run.  The receive only
     empties the caller's own one-slot channel; every other critical section either does not touch
@@ -61,6 +65,12 @@ Definition first_lit (uni client : bool) : Z :=
 Definition num_to_id (n : Z) (uni client : bool) : Z :=
   if n =? 0 then SM_InvalidStreamID else first_lit uni client + 4 * (n - 1).
 
+Fixpoint zmem (w : Z) (l : list Z) : bool :=
+  match l with [] => false | x :: r => (w =? x) || zmem w r end.
+Fixpoint zremove (w : Z) (l : list Z) : list Z :=
+  match l with [] => [] | x :: r => if w =? x then zremove w r else x :: zremove w r end.
+Definition zadd (w : Z) (l : list Z) : list Z := if zmem w l then l else l ++ [w].
+
 (** * incomingStreamsMap *)
 
 Record inmap := mkIn {
@@ -70,7 +80,8 @@ Record inmap := mkIn {
   i_nextOpen : Z;
   i_max : Z;
   i_maxNum : Z;
-  i_closed : option Z            (* closeErr (class) *)
+  i_closed : option Z;           (* closeErr (class) *)
+  i_parked : list Z              (* AcceptStream callers blocked in the select, arrival order *)
 }.
 
 Definition first_incoming (uni client : bool) : Z :=
@@ -84,7 +95,7 @@ Definition first_incoming (uni client : bool) : Z :=
 (** [client] is the map owner's perspective. *)
 Definition init_in (uni client : bool) (maxStreams : Z) : inmap :=
   mkIn uni [] (first_incoming uni client) (first_incoming uni client)
-       (num_to_id maxStreams uni (negb client)) maxStreams None.
+       (num_to_id maxStreams uni (negb client)) maxStreams None [].
 
 Fixpoint lookup (id : Z) (l : list (Z * bool)) : option bool :=
   match l with
@@ -111,7 +122,7 @@ Fixpoint del (id : Z) (l : list (Z * bool)) : list (Z * bool) :=
 Definition zlen {A} (l : list A) : Z := Z.of_nat (length l).
 
 Definition in_set_streams (m : inmap) (s : list (Z * bool)) : inmap :=
-  mkIn (i_uni m) s (i_nextAccept m) (i_nextOpen m) (i_max m) (i_maxNum m) (i_closed m).
+  mkIn (i_uni m) s (i_nextAccept m) (i_nextOpen m) (i_max m) (i_maxNum m) (i_closed m) (i_parked m).
 
 (** the ids created by the loop of GetOrOpenStream: nextOpen, nextOpen+4, ... <= id *)
 Definition open_ids (from id : Z) : list Z :=
@@ -123,7 +134,7 @@ Definition in_get_or_open (m : inmap) (id : Z) : inmap * res :=
     (m, match lookup id (i_streams m) with Some false => RId id | _ => RNil end)
   else
     let s' := fold_left (fun s k => put k false s) (open_ids (i_nextOpen m) id) (i_streams m) in
-    (mkIn (i_uni m) s' (i_nextAccept m) (id + 4) (i_max m) (i_maxNum m) (i_closed m),
+    (mkIn (i_uni m) s' (i_nextAccept m) (id + 4) (i_max m) (i_maxNum m) (i_closed m) (i_parked m),
      match lookup id s' with Some _ => RId id | None => RNil end).
 
 (** deleteStream (the unexported one): new state, success, queued frames *)
@@ -139,7 +150,7 @@ Definition in_delete_inner (m : inmap) (id : Z) : inmap * bool * list frame :=
       if zlen s' <? i_maxNum m then
         let ms := i_nextOpen m + 4 * (i_maxNum m - zlen s' - 1) in
         if ms <=? SM_MaxStreamID then
-          (mkIn (i_uni m) s' (i_nextAccept m) (i_nextOpen m) ms (i_maxNum m) (i_closed m),
+          (mkIn (i_uni m) s' (i_nextAccept m) (i_nextOpen m) ms (i_maxNum m) (i_closed m) (i_parked m),
            true, [FMax (i_uni m) (id_stream_num ms)])
         else (in_set_streams m s', true, [])
       else (in_set_streams m s', true, [])
@@ -149,8 +160,8 @@ Definition in_delete (m : inmap) (id : Z) : inmap * res * list frame :=
   let '(m', ok, fr) := in_delete_inner m id in
   (m', if ok then RUnit else RErr ErrState, fr).
 
-(** one execution of the AcceptStream loop body *)
-Definition in_accept (m : inmap) : inmap * res * list frame :=
+(** one execution of the AcceptStream loop body (lookup and advance under one lock) *)
+Definition in_accept_core (m : inmap) : inmap * res * list frame :=
   match i_closed m with
   | Some e => (m, RErr e, [])
   | None =>
@@ -158,7 +169,7 @@ Definition in_accept (m : inmap) : inmap * res * list frame :=
     match lookup id (i_streams m) with
     | None => (m, RParked, [])
     | Some sd =>
-      let m1 := mkIn (i_uni m) (i_streams m) (id + 4) (i_nextOpen m) (i_max m) (i_maxNum m) (i_closed m) in
+      let m1 := mkIn (i_uni m) (i_streams m) (id + 4) (i_nextOpen m) (i_max m) (i_maxNum m) (i_closed m) (i_parked m) in
       if sd then
         let '(m2, ok, fr) := in_delete_inner m1 id in
         (m2, if ok then RId id else RErr ErrOther, fr)
@@ -166,16 +177,31 @@ Definition in_accept (m : inmap) : inmap * res * list frame :=
     end
   end.
 
-Definition in_close (m : inmap) (e : Z) : inmap :=
-  mkIn (i_uni m) (i_streams m) (i_nextAccept m) (i_nextOpen m) (i_max m) (i_maxNum m) (Some e).
+Definition in_set_parked (m : inmap) (l : list Z) : inmap :=
+  mkIn (i_uni m) (i_streams m) (i_nextAccept m) (i_nextOpen m) (i_max m) (i_maxNum m) (i_closed m) l.
 
-Inductive iop := IGetOrOpen (id : Z) | IDelete (id : Z) | IAccept | IClose (e : Z).
+(** ... executed by caller [a]: it parks (stays parked) or leaves the set of parked callers *)
+Definition in_accept (m : inmap) (a : Z) : inmap * res * list frame :=
+  let '(m', r, fr) := in_accept_core m in
+  (in_set_parked m' (match r with RParked => zadd a (i_parked m') | _ => zremove a (i_parked m') end), r, fr).
+
+(** parked caller [a] takes the ctx.Done branch of the select *)
+Definition in_accept_cancel (m : inmap) (a : Z) : inmap * res * list frame :=
+  if zmem a (i_parked m) then (in_set_parked m (zremove a (i_parked m)), RErr ErrCtx, [])
+  else (m, RNotEnabled, []).
+
+Definition in_close (m : inmap) (e : Z) : inmap :=
+  mkIn (i_uni m) (i_streams m) (i_nextAccept m) (i_nextOpen m) (i_max m) (i_maxNum m) (Some e) (i_parked m).
+
+Inductive iop :=
+| IGetOrOpen (id : Z) | IDelete (id : Z) | IAccept (a : Z) | IAcceptCancel (a : Z) | IClose (e : Z).
 
 Definition istep (m : inmap) (o : iop) : inmap * res * list frame :=
   match o with
   | IGetOrOpen id => let '(m', r) := in_get_or_open m id in (m', r, [])
   | IDelete id => in_delete m id
-  | IAccept => in_accept m
+  | IAccept a => in_accept m a
+  | IAcceptCancel a => in_accept_cancel m a
   | IClose e => (in_close m e, RUnit, [])
   end.
 
@@ -244,10 +270,6 @@ Definition o_sync_call (m : outmap) (w : Z) (cancelled : bool) : outmap * res * 
       (m', RParked, fr)
   end.
 
-Fixpoint zmem (w : Z) (l : list Z) : bool :=
-  match l with [] => false | x :: r => (w =? x) || zmem w r end.
-Fixpoint zremove (w : Z) (l : list Z) : list Z :=
-  match l with [] => [] | x :: r => if w =? x then zremove w r else x :: zremove w r end.
 
 Fixpoint q_token (w : Z) (q : list (Z * bool)) : option bool :=
   match q with [] => None | (x, t) :: r => if w =? x then Some t else q_token w r end.
@@ -336,21 +358,22 @@ Record smap := mkSM {
   s_ob : outmap; s_ou : outmap;
   s_ib : inmap; s_iu : inmap;
   s_reset : bool;
-  s_zomb : list Z      (* OpenStreamSync callers still parked on maps replaced by ResetFor0RTT *)
+  s_zomb : list Z;     (* OpenStreamSync callers still parked on maps replaced by ResetFor0RTT *)
+  s_zacc : list Z      (* AcceptStream callers still parked on replaced maps *)
 }.
 
 Definition init_sm (client : bool) (maxBidi maxUni : Z) : smap :=
   mkSM client maxBidi maxUni (init_out false client) (init_out true client)
-       (init_in false client maxBidi) (init_in true client maxUni) false [].
+       (init_in false client maxBidi) (init_in true client maxUni) false [] [].
 
 Inductive op :=
 | OOpen (uni : bool)
 | OSyncCall (uni : bool) (w : Z) (cancelled : bool)
 | OSyncWake (uni : bool) (w : Z)
 | OSyncCancel (uni : bool) (w : Z)
-| OAcceptCall (uni : bool)
-| OAcceptWake (uni : bool) (stale : bool)   (* stale: parked on a map replaced by ResetFor0RTT *)
-| OAcceptCancel
+| OAcceptCall (uni : bool) (a : Z)
+| OAcceptWake (uni : bool) (a : Z)          (* parked caller a received from newStreamChan *)
+| OAcceptCancel (uni : bool) (a : Z)
 | ODelete (id : Z)
 | OMaxStreams (uni : bool) (n : Z)
 | OTransportParams (nb nu : Z)
@@ -363,15 +386,17 @@ Inductive op :=
 Definition s_out (s : smap) (uni : bool) : outmap := if uni then s_ou s else s_ob s.
 Definition s_in (s : smap) (uni : bool) : inmap := if uni then s_iu s else s_ib s.
 Definition set_out (s : smap) (uni : bool) (m : outmap) : smap :=
-  if uni then mkSM (s_client s) (s_maxBidi s) (s_maxUni s) (s_ob s) m (s_ib s) (s_iu s) (s_reset s) (s_zomb s)
-  else mkSM (s_client s) (s_maxBidi s) (s_maxUni s) m (s_ou s) (s_ib s) (s_iu s) (s_reset s) (s_zomb s).
+  if uni then mkSM (s_client s) (s_maxBidi s) (s_maxUni s) (s_ob s) m (s_ib s) (s_iu s) (s_reset s) (s_zomb s) (s_zacc s)
+  else mkSM (s_client s) (s_maxBidi s) (s_maxUni s) m (s_ou s) (s_ib s) (s_iu s) (s_reset s) (s_zomb s) (s_zacc s).
 Definition set_in (s : smap) (uni : bool) (m : inmap) : smap :=
-  if uni then mkSM (s_client s) (s_maxBidi s) (s_maxUni s) (s_ob s) (s_ou s) (s_ib s) m (s_reset s) (s_zomb s)
-  else mkSM (s_client s) (s_maxBidi s) (s_maxUni s) (s_ob s) (s_ou s) m (s_iu s) (s_reset s) (s_zomb s).
+  if uni then mkSM (s_client s) (s_maxBidi s) (s_maxUni s) (s_ob s) (s_ou s) (s_ib s) m (s_reset s) (s_zomb s) (s_zacc s)
+  else mkSM (s_client s) (s_maxBidi s) (s_maxUni s) (s_ob s) (s_ou s) m (s_iu s) (s_reset s) (s_zomb s) (s_zacc s).
 Definition set_zomb (s : smap) (z : list Z) : smap :=
-  mkSM (s_client s) (s_maxBidi s) (s_maxUni s) (s_ob s) (s_ou s) (s_ib s) (s_iu s) (s_reset s) z.
+  mkSM (s_client s) (s_maxBidi s) (s_maxUni s) (s_ob s) (s_ou s) (s_ib s) (s_iu s) (s_reset s) z (s_zacc s).
+Definition set_zacc (s : smap) (z : list Z) : smap :=
+  mkSM (s_client s) (s_maxBidi s) (s_maxUni s) (s_ob s) (s_ou s) (s_ib s) (s_iu s) (s_reset s) (s_zomb s) z.
 Definition set_reset (s : smap) (b : bool) : smap :=
-  mkSM (s_client s) (s_maxBidi s) (s_maxUni s) (s_ob s) (s_ou s) (s_ib s) (s_iu s) b (s_zomb s).
+  mkSM (s_client s) (s_maxBidi s) (s_maxUni s) (s_ob s) (s_ou s) (s_ib s) (s_iu s) b (s_zomb s) (s_zacc s).
 
 (** id.InitiatedBy() == m.perspective *)
 Definition by_self (s : smap) (id : Z) : bool := Bool.eqb (id_by_client id) (s_client s).
@@ -414,11 +439,15 @@ Definition tstep (s : smap) (o : op) : smap * res * list frame :=
   | OSyncCancel uni w =>
     if zmem w (s_zomb s) then (set_zomb s (zremove w (s_zomb s)), RErr ErrCtx, [])
     else via_out s uni (ostep (s_out s uni) (OpSyncCancel w))
-  | OAcceptCall uni =>
-    if s_reset s then (s, RErr Err0RTT, []) else via_in s uni (istep (s_in s uni) IAccept)
-  | OAcceptWake uni stale =>
-    if stale then (s, RErr Err0RTT, []) else via_in s uni (istep (s_in s uni) IAccept)
-  | OAcceptCancel => (s, RErr ErrCtx, [])
+  | OAcceptCall uni a =>
+    if s_reset s then (s, RErr Err0RTT, []) else via_in s uni (istep (s_in s uni) (IAccept a))
+  | OAcceptWake uni a =>
+    if zmem a (s_zacc s) then (set_zacc s (zremove a (s_zacc s)), RErr Err0RTT, [])
+    else if zmem a (i_parked (s_in s uni)) then via_in s uni (istep (s_in s uni) (IAccept a))
+    else (s, RNotEnabled, [])
+  | OAcceptCancel uni a =>
+    if zmem a (s_zacc s) then (set_zacc s (zremove a (s_zacc s)), RErr ErrCtx, [])
+    else via_in s uni (istep (s_in s uni) (IAcceptCancel a))
   | ODelete id => t_delete s id
   | OMaxStreams uni n =>
     via_out s uni (ostep (s_out s uni) (OpSetMax (num_to_id n uni (s_client s))))
@@ -430,13 +459,13 @@ Definition tstep (s : smap) (o : op) : smap * res * list frame :=
   | OSend id => t_get_send s id
   | OClose e =>
     (mkSM (s_client s) (s_maxBidi s) (s_maxUni s) (o_close (s_ob s) e) (o_close (s_ou s) e)
-          (in_close (s_ib s) e) (in_close (s_iu s) e) (s_reset s) (s_zomb s), RUnit, [])
+          (in_close (s_ib s) e) (in_close (s_iu s) e) (s_reset s) (s_zomb s) (s_zacc s), RUnit, [])
   | OReset =>
     let z := s_zomb s ++ o_dead (o_close (s_ob s) Err0RTT) ++ o_dead (o_close (s_ou s) Err0RTT) in
     (mkSM (s_client s) (s_maxBidi s) (s_maxUni s)
           (init_out false (s_client s)) (init_out true (s_client s))
           (init_in false (s_client s) (s_maxBidi s)) (init_in true (s_client s) (s_maxUni s))
-          true z, RUnit, [])
+          true z (s_zacc s ++ i_parked (s_ib s) ++ i_parked (s_iu s)), RUnit, [])
   | OUseReset => (set_reset s false, RUnit, [])
   end.
 
